@@ -28,7 +28,7 @@ ASSUMPTIONS = ["not judged: B in a directory that does not exist, B already exis
 REQUIRED_COUNTERS = ["enter.run_file_rename", "links.rewritten"]
 MIN_JUDGED = {"quick": 2000, "thorough": 30000}
 LINK_RE = re.compile(r"\[\[([^\[\]\n]*?)\]\]")
-NAMES = ["alpha", "a_b", "prj", "notes", "p", "in_box", "log2024", "x1"]
+NAMES = ["alpha", "a_b", "prj", "notes", "p", "in_box", "log2024", "x1", "c++", "x-y", "n_1", "a(b)", "what?"]
 
 
 def setup_worker() -> None:
